@@ -1047,7 +1047,10 @@ def monitors(tr, endT, cfg=CFG):
                         a, hi = tb + cfg["qLo"] + off - cfg["dupQ"], tb + cfg["qHi"] + off
                     if hi > endT:
                         continue
-                    if any(e[4] == h and ptr_of(e[6], sv) is not None and x[0] < e[0] <= hi for e in dlvs):
+                    # the record is still the last PTR(s) the host processed, in trace order (a record processed later in the
+                    # same millisecond supersedes: lastPtrIs)
+                    upto = [e for e in dlvs if e[4] == h and ptr_of(e[6], sv) is not None and e[0] <= hi]
+                    if not upto or upto[-1] != x:
                         continue
                     ok = any(sd[2] == h and sd[4] is None and a <= sd[0] <= hi and asks_without(sd[5], ty, sv) for sd in sends) \
                         or any(e[4] == h and e[5] and a <= e[0] <= hi and asks_without(e[6], ty, sv) for e in dlvs)
